@@ -420,8 +420,75 @@ def stepAxes (ndims worlds : Sexp) (ops : List Sexp) (pyout : Sexp) : String :=
 
 end Combo
 
+/-! ## family `vpick`: the attribute pickers of a viewer state, in situ
+
+`(vpick (nData nColors cls (op …)) <snapshots>)`; a snapshot is `(viewsnap (picker…))`: the viewer
+snapshot of family `view` plus one combo snapshot (format of family `combo`) per picker of the
+viewer state — scatter: `x_att` (default index 0), `y_att` (1); histogram: `x_att` (0).  Every
+dataset is 2-d without coordinates: component ids `3 d` (`x`, numerical), `3 d + 1`, `3 d + 2`
+(pixel axes).  The pickers are fed by `_layers_changed` with `state.layers_data`; the relevant
+datasets are those of the layers, in layer order. -/
+section VPick
+open GlueVerif.C18Combo
+
+def vpDS (d : Nat) : DS := { id := d, main := [(3 * d, .numerical)], derived := [], pixel := [3 * d + 1, 3 * d + 2], world := [] }
+
+def vpFlags : Flags := { defaultFlags with pixel := true, world := true }
+
+def layerData : Layer → Option Nat
+  | .data d => some d
+  | .sub s => s.data
+
+def layerDatasets (arts : List Art) : List Nat := dedup (arts.filterMap fun a => layerData a.layer)
+
+def vpIdxs (cls : String) : List Int := if cls == "sc" then [0, 1] else [0]
+
+def pickSnap (hdata : List Nat) (choices : List Choice) (sel : Option Nat) : Sexp :=
+  .list [flagsSexp vpFlags, tagged "H" ((hdata.map vpDS).map dsSexp), tagged "c" (choices.map choiceSexp),
+         tagged "s" [optNatSexp sel], tagged "e" [ofBool false], tagged "q" [ofNat 0]]
+
+def stepVPick (n c cls : Sexp) (ops : List Sexp) (pyout : Sexp) : String :=
+  match n.toNat?, c.toNat?, ops.mapM vopOf? with
+  | some n, some colors, some ops =>
+    let cls := match cls with | .atom a => a | _ => ""
+    let idxs := vpIdxs cls
+    let v0 := C18Viewer.init n colors
+    let states := (ops.foldl (fun (acc : List VState × VState) op =>
+        let v' := C18Viewer.step acc.2 op
+        (acc.1 ++ [v'], v')) ([v0], v0)).1
+    -- the pickers: after every step the helper holds the datasets of the layers; echo keeps the
+    -- selection if it is still offered
+    let picks := (states.foldl (fun (acc : List (List (List Nat × List Choice × Option Nat)) × List (Option Nat)) v =>
+        let hd := layerDatasets v.arts
+        let choices := refresh vpFlags (hd.map vpDS)
+        let sels := (idxs.zip acc.2).map fun (idx, prev) => choicesUpdated idx choices prev
+        (acc.1 ++ [sels.map fun s => (hd, choices, s)], sels)) ([], idxs.map fun _ => none)).1
+    let named := (states.foldl (fun (acc : List (Sexp × Want) × Ren × Ren) v =>
+        let ms := renExtend acc.2.1 (subIdsOf v)
+        let ma := renExtend acc.2.2 (artIdsOf v)
+        (acc.1 ++ [(snapshot ms ma v, renWant ms v.want)], ms, ma)) ([], [], [])).1
+    let out := (named.zip picks).map fun ((vs, _), ps) =>
+      Sexp.list [vs, .list (ps.map fun (hd, ch, s) => pickSnap hd ch s)]
+    let implok := states.all specOkV &&
+      picks.all fun ps => ps.all fun (hd, ch, s) => comboOk vpFlags (hd.map vpDS) ch s
+    let ok := match pyout with
+      | .list pys => pys.length == named.length &&
+          (pys.zip named).all fun (py, (_, w)) => match py with
+            | .list [vs, .list pks] =>
+              pySnapOk w vs && pks.length == idxs.length &&
+              (match parseSnap vs with
+               | some psn => pks.all (pyComboOk (layerDatasets psn.arts) 0)
+               | none => false)
+            | _ => false
+      | _ => false
+    driverResult (.list out) ok implok true (viewBranch ops states)
+  | _, _, _ => driverError "vpick-args"
+
+end VPick
+
 def step (line : String) : String :=
   match Sexp.parse line with
+  | some (.list [.atom "vpick", .list [n, c, cls, .list ops], pyout]) => stepVPick n c cls ops pyout
   | some (.list [.atom "view", .list [n, c, cls, .list ops], pyout]) => stepView n c cls ops pyout
   | some (.list [.atom "combo", .list [n, idx, .list ops], pyout]) => stepCombo n idx ops pyout
   | some (.list [.atom "dcombo", .list [n, auto, idx, inDc, .list ops], pyout]) => stepDcombo n auto idx inDc ops pyout
